@@ -308,26 +308,26 @@ func (f *FieldCopyToGenerator) genListOrMap() *j.Statement {
 					j.Id("ElemType"): j.Id("o.ElemType"),
 					j.Id("Null"):     j.True(),
 				}),
-			).Else().Block(
-				j.If(j.Id("c.Elems").Op("==").Nil()).Block(
+			).Else().BlockFunc(func(g *j.Group) {
+				if f.IsMap {
+					// Values are rebuilt from the source below, so are the keys: a key which is
+					// gone from the source must not survive in the existing map.
+					g.Id("c.Elems").Op("=").Add(mk)
+					return
+				}
+				// It might happen that we changed the number of elements (or that the source
+				// became nil). This check creates a new array if that's the case. Otherwise, we
+				// would have a panic at the last line in the For loop or extra elements.
+				g.If(j.Id("c.Elems").Op("==").Nil().Op("||").Len(j.Id(fieldName)).Op("!=").Len(j.Id("c.Elems"))).Block(
 					j.Id("c.Elems").Op("=").Add(mk),
-				),
-			)
+				)
+			})
 
 			g.If(j.Id(fieldName)).Op("!=").Nil().BlockFunc(func(g *j.Group) {
 				if (f.Kind == PrimitiveListKind) || (f.Kind == PrimitiveMapKind) {
 					g.Id("t").Op(":=").Id("o.ElemType")
 				} else {
 					g.Id("o").Op(":=").Id("o.ElemType").Assert(j.Id(f.i.WithType(f.ElemType)))
-				}
-
-				if f.IsRepeated {
-					// It might happen that we changed the number of elements.
-					// This check creates a new array if that's the case.
-					// Otherwise, we would have a panic at the last line in the For loop or extra elements.
-					g.If(j.Len(j.Id(fieldName)).Op("!=").Len(j.Id("c.Elems"))).Block(
-						j.Id("c.Elems").Op("=").Add(mk),
-					)
 				}
 
 				// for k, a := range obj.List
